@@ -180,8 +180,9 @@ def tags(value):
     return out
 
 
-def verify(message, keys):
-    """keys: {'rsa': (n, e), 'ed25519': pub32}.  Returns (ok, reason, details)."""
+def verify(message, keys, which=None):
+    """keys: {'rsa': (n, e), 'ed25519': pub32}.  Returns (ok, reason, details).  `which`: index of the DKIM-Signature field to
+    verify when the message carries several (each is verified on its own; the others are ordinary fields to it)."""
     i = message.find(b"\r\n\r\n")
     if message.startswith(b"\r\n"):
         block, body = b"", message[2:]
@@ -191,9 +192,11 @@ def verify(message, keys):
         block, body = message[:i + 2], message[i + 4:]
     fields = split_fields(block)
     sigs = [f for f in fields if f.split(b":")[0].strip().lower() == b"dkim-signature"]
-    if len(sigs) != 1:
+    if which is None and len(sigs) != 1:
         return False, "%d DKIM-Signature fields" % len(sigs), {}
-    sig = sigs[0]
+    if which is not None and which >= len(sigs):
+        return False, "no DKIM-Signature field number %d" % which, {}
+    sig = sigs[which or 0]
     t = tags(re.sub(rb"\r\n(?=[ \t])", b"", sig.partition(b":")[2]))
     det = {"tags": {k: v.strip().decode("latin1") for k, v in t.items()}}
     c = re.sub(rb"\s+", b"", t.get("c", b"simple/simple")).decode()
